@@ -24,7 +24,6 @@ Cnt0 == [steps |-> 0, execs |-> 0, banks |-> 0, insts |-> 0, adopts |-> 0, sizes
          c02_loads |-> 0, c02_api |-> 0, enc_bytes |-> 0, dec_bytes |-> 0, refined |-> 0, drifted |-> 0]
 Init == l = 1 /\ st = St0 /\ fails = <<>> /\ cnt = Cnt0 /\ drift = <<>> /\ exec = 0
 
-SetToSeq(S) == CHOOSE f \in [1..Cardinality(S) -> S] : \A i, j \in 1..Cardinality(S) : i # j => f[i] # f[j]
 Tag(p, S, ev, d) == { [p |-> p, w |-> x, l |-> l, x |-> exec, e |-> ev.o, d |-> d] : x \in S }
 AddFails(S) == LET keep == { x \in S : Cardinality({ i \in DOMAIN fails : fails[i].p = x.p /\ fails[i].w = x.w }) < MaxPerLabel } IN
                IF keep = {} THEN fails ELSE fails \o SetToSeq(keep)
